@@ -44,8 +44,17 @@ func runRX3(c *load.Ctx, r *report.RuleResult) {
 	// the loop: a header with a boolean phi
 	var header *ssa.BasicBlock
 	for _, b := range fn.Blocks {
+		isHeader := false
+		for _, p := range b.Preds {
+			if b.Dominates(p) {
+				isHeader = true // a back edge
+			}
+		}
+		if !isHeader {
+			continue
+		}
 		for _, ins := range b.Instrs {
-			if phi, ok := ins.(*ssa.Phi); ok && isBoolType(phi.Type()) && len(b.Preds) >= 2 {
+			if phi, ok := ins.(*ssa.Phi); ok && isBoolType(phi.Type()) {
 				header = b
 			}
 		}
@@ -313,33 +322,41 @@ func runRX3(c *load.Ctx, r *report.RuleResult) {
 	case stored == nil:
 		r.Bad("terminator|pattern", pos, "leaving the loop at the closing slash does not store the pattern")
 	default:
-		low, high := "", ""
-		if stored.Low != nil {
-			low = stored.Low.String()
-		}
-		if stored.High != nil {
-			high = stored.High.String()
-		}
-		if bo, ok := stored.High.(*ssa.BinOp); ok && bo.Op == token.ADD {
-			if k, ok := bo.Y.(*ssa.Const); ok && k.Value != nil && sameIndexValue(bo.X, indexPhi) {
-				high = "index+" + k.Value.String()
+		// relate the slice taken to the element the loop was looking at when it left
+		var elem *ssa.IndexAddr
+		for _, ins := range entry.Instrs {
+			if ia, ok := ins.(*ssa.IndexAddr); ok && sameIndexValue(ia.Index, indexPhi) {
+				elem = ia
 			}
-		} else if sameIndexValue(stored.High, indexPhi) {
-			high = "index"
 		}
-		if k, ok := stored.Low.(*ssa.Const); ok && k.Value != nil {
-			low = k.Value.String()
+		isConst := func(v ssa.Value, want string) bool {
+			k, ok := v.(*ssa.Const)
+			return ok && k.Value != nil && k.Value.String() == want
 		}
-		ranged := rangedSlice(entry, indexPhi)
-		onContent := ranged != nil && stored.X == ranged.X
-		onRanged := ranged != nil && stored.X == ssa.Value(ranged)
-		switch {
-		case onContent && low == "1" && high == "index+1":
-			r.OK("terminator|pattern", c.Pos(stored.Pos()), "the pattern is content[1 : index+1] with index counting from the byte after the opening slash: the text between the two slashes")
-		case onRanged && (low == "" || low == "0") && high == "index":
-			r.OK("terminator|pattern", c.Pos(stored.Pos()), "the pattern is the ranged text up to the closing slash")
-		default:
-			r.Unk("terminator|pattern", c.Pos(stored.Pos()), fmt.Sprintf("the pattern is taken as a slice [%s:%s] that this rule cannot relate to the position of the closing slash", low, high))
+		plusOne := func(v, base ssa.Value) bool {
+			bo, ok := v.(*ssa.BinOp)
+			return ok && bo.Op == token.ADD && bo.X == base && isConst(bo.Y, "1")
+		}
+		ok := false
+		why := ""
+		if elem != nil {
+			switch {
+			case stored.X == elem.X && stored.High == elem.Index && isConst(stored.Low, "1"):
+				ok, why = true, "text[1:i] with text[i] the closing slash"
+			case stored.X == elem.X && stored.High == elem.Index && (stored.Low == nil || isConst(stored.Low, "0")):
+				if sl, isSl := elem.X.(*ssa.Slice); isSl && isConst(sl.Low, "1") {
+					ok, why = true, "rest[:i] with rest the text after the opening slash and rest[i] the closing slash"
+				}
+			default:
+				if sl, isSl := elem.X.(*ssa.Slice); isSl && isConst(sl.Low, "1") && sl.High == nil && stored.X == sl.X && isConst(stored.Low, "1") && plusOne(stored.High, elem.Index) {
+					ok, why = true, "content[1:i+1] with i counting from the byte after the opening slash and that byte the closing slash"
+				}
+			}
+		}
+		if ok {
+			r.OK("terminator|pattern", c.Pos(stored.Pos()), "the pattern is "+why+": the text between the two slashes")
+		} else {
+			r.Unk("terminator|pattern", c.Pos(stored.Pos()), "the slice stored as the pattern ("+stored.String()+") could not be related to the position of the closing slash")
 		}
 	}
 }
